@@ -133,22 +133,34 @@ static void case_running(vh::Rng& r, gen::CerrCapture& cap) {
 // running bypassed exactly when disabled: with running off (or scale <= 0) the Yukawas do not depend on alpha_s, alpha_em
 static void case_bypass(vh::Rng& r) {
    thdm::Mass_basis b = gen::rand_mass_basis(r); b.mh = r.LU(10, 300); b.mH = r.LU(b.mh, 1e4);
+   // Higgs masses (= the scales the Yukawa couplings are taken at) over the whole range, down to 1 GeV - below mb(mb) too
+   const bool lightS = r.chance(0.4);
+   if (lightS) { b.mA = r.LU(1, 10); b.mHp = r.LU(1, 10); if (r.chance(0.5)) { b.mh = r.LU(1, 8); b.mH = r.LU(b.mh, 300); } }
    SM s1, s2; s2.set_alpha_s_mz(s1.get_alpha_s_mz() * r.U(0.5, 2));
    J c = gen::json(b);
    try {
-      thdm::Config off; off.running_couplings = false; thdm::Config on; on.running_couplings = true;
+      thdm::Config off; off.running_couplings = false; thdm::Config on; on.running_couplings = true; off.force_output = on.force_output = lightS;
       THDM a(b, s1, off), b2(b, s2, off), c1(b, s1, on), c2(b, s2, on);
       ++out->conclusive;
-      auto same = [](const Eigen::Matrix<std::complex<double>, 3, 3>& x, const Eigen::Matrix<std::complex<double>, 3, 3>& y) { for (int i = 0; i < 9; ++i) if (!vh::same_bits(x.data()[i].real(), y.data()[i].real()) || !vh::same_bits(x.data()[i].imag(), y.data()[i].imag())) return false; return true; };
-      const bool off_same = same(a.get_yuH(), b2.get_yuH()) && same(a.get_ydA(), b2.get_ydA()) && same(a.get_ydHp(), b2.get_ydHp()) && same(a.get_ylh(), b2.get_ylh());
-      const bool on_differs = !same(c1.get_ydH(), c2.get_ydH()) || !same(c1.get_yuA(), c2.get_yuA());
-      const bool on_off_differ = !same(a.get_yuH(), c1.get_yuH());
-      out->cell("running-bypass|off:independent-of-alpha_s", off_same ? 0 : 1, &c);
-      out->cell("running-bypass|on:depends-on-alpha_s", on_differs ? 0 : 1, &c);
-      out->cell("running-bypass|on-differs-from-off", on_off_differ ? 0 : 1, &c);
-      if (!off_same) out->fail("C20:running-not-bypassed-when-disabled", "Yukawa couplings depend on alpha_s(MZ) although running couplings are disabled", c);
-      if (!on_differs || !on_off_differ) out->fail("C20:running-bypassed-when-enabled", "Yukawa couplings do not react to alpha_s(MZ) although running couplings are enabled", c);
-      // with running off the diagonal h couplings are built from the input masses: y^h_ff = (sba m_f + cba rho_ff v/sqrt2)/v, rho from input masses
+      typedef Eigen::Matrix<std::complex<double>, 3, 3> CM3;
+      auto same = [](const CM3& x, const CM3& y) { for (int i = 0; i < 9; ++i) if (!vh::same_bits(x.data()[i].real(), y.data()[i].real()) || !vh::same_bits(x.data()[i].imag(), y.data()[i].imag())) return false; return true; };
+      struct G { const char* n; CM3 (*g)(const THDM&); bool quark; };
+      static const G gs[] = {{"yuh", [](const THDM& m) { return CM3(m.get_yuh()); }, true}, {"yuH", [](const THDM& m) { return CM3(m.get_yuH()); }, true}, {"yuA", [](const THDM& m) { return CM3(m.get_yuA()); }, true}, {"yuHp", [](const THDM& m) { return CM3(m.get_yuHp()); }, true},
+                             {"ydh", [](const THDM& m) { return CM3(m.get_ydh()); }, true}, {"ydH", [](const THDM& m) { return CM3(m.get_ydH()); }, true}, {"ydA", [](const THDM& m) { return CM3(m.get_ydA()); }, true}, {"ydHp", [](const THDM& m) { return CM3(m.get_ydHp()); }, true},
+                             {"ylh", [](const THDM& m) { return CM3(m.get_ylh()); }, false}, {"ylH", [](const THDM& m) { return CM3(m.get_ylH()); }, false}, {"ylA", [](const THDM& m) { return CM3(m.get_ylA()); }, false}, {"ylHp", [](const THDM& m) { return CM3(m.get_ylHp()); }, false}};
+      const std::string reg = lightS ? "|scales-down-to-1GeV" : "|scales>10GeV";
+      for (const G& g : gs) {
+         const CM3 yoff1 = g.g(a), yoff2 = g.g(b2), yon1 = g.g(c1), yon2 = g.g(c2);
+         const bool off_same = same(yoff1, yoff2);                               // running off: no dependence on alpha_s
+         const bool on_off_differ = !same(yoff1, yon1);                           // running on: the couplings are taken at the Higgs scale, not at the input masses
+         const bool on_dep = !g.quark || !same(yon1, yon2);                      // running on: quark couplings react to alpha_s(MZ)
+         J w = c; w.str("getter", g.n).i("light_scales", lightS);
+         out->cell(std::string("running-bypass|off:independent-of-alpha_s|") + g.n + reg, off_same ? 0 : 1, &w);
+         out->cell(std::string("running-bypass|on-differs-from-off|") + g.n + reg, on_off_differ ? 0 : 1, &w);
+         out->cell(std::string("running-bypass|on:quark-couplings-depend-on-alpha_s|") + g.n + reg, on_dep ? 0 : 1, &w);
+         if (!off_same) out->fail(std::string("C20:running-not-bypassed-when-disabled:") + g.n, std::string(g.n) + " depends on alpha_s(MZ) although running couplings are disabled", w);
+         if (!on_off_differ || !on_dep) out->fail(std::string("C20:running-bypassed-when-enabled:") + g.n, std::string(g.n) + (on_off_differ ? " does not react to alpha_s(MZ)" : " is the same with running couplings enabled and disabled"), w);
+      }
    } catch (const Error&) { ++out->inconclusive; }
 }
 
